@@ -324,6 +324,31 @@ func %s() {
 `, pc.name, name, pc.call)
 		fam.Instances = append(fam.Instances, Instance{Func: name, Stratum: "release:odd-input", Desc: pc.name + " with a nil value / empty key in its data", Expect: []string{"executed"}})
 	}
+	b.WriteString(`
+// every wrapper of a pool has an engine of its own (also after every kind of update)
+func I_distinct_engines() {
+	for _, sz := range [][2]int64{{1, 2}, {1, 3}, {2, 4}, {3, 5}} {
+		gp := zzReqPool(sz[0], sz[1])
+		for round := 0; round < 3; round++ {
+			all := zzAllWrappers(gp)
+			vnd.Assert(int64(len(all)) == sz[1], "the pool has max instances")
+			for i := range all {
+				vnd.Assert(all[i].gengine != nil, "every instance has an engine")
+				for j := i + 1; j < len(all); j++ {
+					vnd.Assert(all[i] != all[j] && all[i].gengine != all[j].gengine, "no two instances share an engine")
+				}
+			}
+			if round == 0 {
+				zzMust(gp.UpdatePooledRules(zzReqText), "full update")
+			} else {
+				zzMust(gp.RemoveRules([]string{"b"}), "removal")
+			}
+		}
+	}
+	vnd.Reach("executed")
+}
+`)
+	fam.Instances = append(fam.Instances, Instance{Func: "I_distinct_engines", Stratum: "construction", Desc: "pairwise distinct engines per wrapper, pools (1,2) (1,3) (2,4) (3,5)", Expect: []string{"executed"}})
 	// a request that found every instance busy proceeds as soon as any instance is handed back
 	for _, back := range []string{"initial", "additional"} {
 		name := "W_waiter_" + back
